@@ -398,6 +398,7 @@ func (s *Storer) GetAofWritter(r io.Reader, offset int64) (*AofWriter, error) {
 
 	aofSeg := &dataSetAof{
 		left: offset,
+		size: -1, // being written, like the segments created on rotation : its header is not final, verifyCrc must skip it
 	}
 	s.dataSetMux.Lock()
 	s.dataSet.AppendAof(aofSeg)
